@@ -45,6 +45,15 @@ TABLE = [
     ('leaving a scope whose child is done', [], [['scope', 91, [['do', 91, 91, ['now'], False, []], ['await', ['delay', 0]]]]]),
     ('leaving an empty until block', [], [['until', 92, ['eternity'], []]]),
     ('leaving an until block that already holds', [], [['until', 92, ['instant'], []]]),
+    # the same operations with a counterpart already waiting (they wake it up and must still yield themselves)
+    ('queue put with a waiting receiver', [['get', 0]], [['put', 0, 7]]),
+    ('queue close with a waiting receiver', [['try', [['get', 0]], [[['exception'], []]], []]], [['close_q', 0]]),
+    ('channel put with a waiting consumer', [['chan_get', 0]], [['chan_put', 0, 7]]),
+    ('channel close with a waiting consumer', [['try', [['chan_get', 0]], [[['exception'], []]], []]], [['chan_close', 0]]),
+    ('set flag: rising edge with a waiter', [['await', ['flag', 0]]], [['set_flag', 0, True]]),
+    ('set flag: falling edge with a waiter', [['set_flag', 0, True], ['await', ['not', ['flag', 0]]]], [['set_flag', 0, False]]),
+    ('set tracked with a waiter', [['await', ['cmp', 0, 'ge', 5]]], [['set_tracked', 0, 5]]),
+    ('tracked + 1 with a waiter', [['await', ['cmp', 0, 'ge', 1]]], [['add_tracked', 0, 1]]),
 ]
 
 
@@ -60,7 +69,7 @@ def build(row, k, start):
     roots.append([['await', ['delay', 1]], ['log', 100]] + op + [['log', 101]])
     for i in range(k):
         roots.append([['await', ['delay', 1]], ['log', 200 + i], ['await', ['instant']], ['log', 300 + i]])
-    return dict(start=start, till=None, roots=roots, nflags=2, tracked=[0, 1], nlocks=1, nqueues=1)
+    return dict(start=start, till=None, roots=roots, nflags=2, tracked=[0, 1], nlocks=1, nqueues=1, nchans=1, res=[])
 
 
 def mon_yields(sc, trace, probes, info):
@@ -180,7 +189,30 @@ def direct_ops():
 def run_direct(ctx):
     import usim
     ops, chan_iter_buffered = direct_ops()
-    for name, op in ops + [('channel iteration step to a second buffered message', None)]:
+    async def interval_exact(st):
+        # the body takes exactly one period: the next step is due right now and must still yield
+        n = 0
+        async for now in usim.interval(2):
+            n += 1
+            if n == 2:
+                st['mark']('end2')
+                break
+            await (usim.time + 2)
+            st['mark']('start2')
+
+    async def delay_zero_second(st):
+        n = 0
+        async for now in usim.delay(0):
+            n += 1
+            if n == 2:
+                st['mark']('end2')
+                break
+            st['mark']('start2')
+
+    special = {'channel iteration step to a second buffered message': None,
+               'interval step that is due right now (body took exactly one period)': interval_exact,
+               'second step of delay(0)': delay_zero_second}
+    for name, op in ops + [(nm, None) for nm in special]:
         for k in (1, 2, 5):
             marks = []
             st = {'mark': lambda x: marks.append((x, usim.time.now))}
@@ -209,18 +241,26 @@ def run_direct(ctx):
                 await (usim.time + 1)
                 await st['chan'].put(m)
 
+            spin_at = 5 if name.startswith('interval step') else 1
+
             async def spinner(i):
-                await (usim.time + 1)
+                await (usim.time + spin_at)
                 st['mark'](('spin', i))
-                await usim.instant
-                st['mark'](('spin2', i))
+                for r in range(2, 6):
+                    await usim.instant
+                    st['mark'](('spin%d' % r, i))
             case = {'operation': name, 'spinners': k}
             acts = [setup(), subject()] + [spinner(i) for i in range(k)]
-            if op is None:
+            if op is None and special[name] is None:
                 # the consumer must already be subscribed when the messages arrive
                 async def early_consumer():
                     await chan_iter_buffered(st)
                 acts = [setup(), early_consumer(), feeder(1), feeder(2)] + [spinner(i) for i in range(k)]
+            elif op is None:
+                async def stepper(fn=special[name]):
+                    await (usim.time + 1)
+                    await fn(st)
+                acts = [setup()] + [spinner(i) for i in range(k)] + [stepper()]
             try:
                 usim.run(*acts)
             except BaseException as e:
@@ -246,7 +286,7 @@ def run_direct(ctx):
                 if not turns:
                     ctx.fail(case, '%s: competitor %d got no turn before the operation completed: %r' % (name, i, names), family='direct')
                     break
-    ctx.extra['direct_operations'] = len(ops) + 1
+    ctx.extra['direct_operations'] = len(ops) + len(special)
 
 
 def run(ctx):
